@@ -804,6 +804,29 @@ fn c18(tier: Tier, seed: u64, case: u64) -> CaseReport {
                 rep.violate("lsp-workspace-symbols-differ", "clean", format!("entry {}: symbol {:?} vs search result {:?} ({} vs {} entries)", i, g2.get(i), w2.get(i), g2.len(), w2.len()), replay.clone());
             }
         }
+        // document symbols: every entry names a real heading - the uri is the note that holds the heading, the line is
+        // the heading's line there, the last element of the name is its text
+        for k in texts.keys().take(3) {
+            let uri = s.uri(k);
+            if let crate::lsp::Outcome::Result(v) = s.request("textDocument/documentSymbol", json!({"textDocument": {"uri": uri}})) {
+                rep.count("lsp_document_symbol_requests", 1);
+                for sym in v.as_array().cloned().unwrap_or_default() {
+                    let name = sym["name"].as_str().unwrap_or("").to_string();
+                    let last = norm(name.rsplit(" • ").next().unwrap_or(""));
+                    let key = sym["location"]["uri"].as_str().and_then(|u| s.key_of_uri(u)).unwrap_or_default();
+                    let line = sym["location"]["range"]["start"]["line"].as_u64().unwrap_or(u64::MAX) as usize;
+                    // (line numbers refer to the text the server holds, which is `texts`)
+                    let ok = texts.get(&key).map(|t| {
+                        let sc = mdscan::scan(t);
+                        sc.atoms.iter().any(|a| matches!(a.kind, AKind::Heading(_)) && a.line == line && norm(&a.text) == last)
+                    }).unwrap_or(false);
+                    if !ok {
+                        rep.violate("document-symbol-not-a-real-heading", "clean", format!("documentSymbol({}) lists `{}` at {} line {}: no heading `{}` there", k, name, key, line, last), replay.clone());
+                        break;
+                    }
+                }
+            }
+        }
         let _ = s.shutdown();
         let bin = mon::verif_root().join("harness/target/repo/release/iwe");
         if bin.exists() {
